@@ -7,7 +7,7 @@ from pathlib import Path
 from vlib.common import REPO
 from harness.simdevice import CliDevice
 from harness.simtransport import AsyncSimTransport, FaultPlan, SimStall, SimTransport, make_conn
-from harness.secretdevice import DialogueDevice, LoginDevice
+from harness.secretdevice import BadSecretDevice, DialogueDevice, LoginDevice
 
 SECRET_ROLES = ("PW", "PP", "SEC", "HID")          # auth_password, passphrase, auth_secondary, hidden interact input
 PROBE_ROLES = ("USR", "NHI", "CMD", "UID")         # not secret: used to validate the extraction on flows that DO happen
@@ -437,8 +437,11 @@ def sc_ssh(spec, can, res, R):
 def sc_escalate(spec, can, res, R):
     plat, v = spec["platform"], spec.get("variant", "ok")
     # variant "nopass": the device asks for no password at all although the driver has an auth_secondary
-    dev = CliDevice(plat, hostname="r1", user="admin", login_mode="exec" if plat != "cisco_iosxr" else None,
-                    enable_password=None if v == "nopass" else can["SEC"].full if v in ("ok", "priverr") else "other-secret")
+    # variant "denied": the device gives one try; a wrong auth_secondary is answered with an error line and the PREVIOUS
+    # prompt, so the read after the hidden input ends on an interaction-complete pattern (authenticated escalation FAILS)
+    dcls = BadSecretDevice if v == "denied" else CliDevice
+    dev = dcls(plat, hostname="r1", user="admin", login_mode="exec" if plat != "cisco_iosxr" else None,
+               enable_password=None if v == "nopass" else can["SEC"].full if v in ("ok", "priverr") else "other-secret")
     conn, t = make_conn(plat, dev, spec["stack"], faults=_faults(spec), transport_cls=_tcls(spec),
                         **_common_kw(can, auth_secondary=can["SEC"].full))
     res.conn = conn
@@ -488,11 +491,19 @@ def sc_interactive_early(spec, can, res, R):
     """a multi step interaction that ends early: the prompt the first event expects never comes, one of the
     interaction_complete_patterns matches instead, a hidden event is still pending (the device is then at an
     ordinary prompt, where it echoes what is typed)"""
-    dev = DialogueDevice("r1>", ["r1>", "r1>", "r1>"], [False, False, False], echo_all=False)
+    if spec.get("variant") == "denied":
+        # the password prompt comes, the hidden input is typed there (no echo) and REJECTED: error line + the old prompt,
+        # which is a completion pattern and not the response the hidden event expects
+        dev = DialogueDevice("r1>", ["Password: ", "% Bad secret\nr1>", "r1>"], [False, True, False], echo_all=False)
+        expect2 = "r1#"
+    else:
+        dev = DialogueDevice("r1>", ["r1>", "r1>", "r1>"], [False, False, False], echo_all=False)
+        expect2 = "r1>"
     conn, t = make_conn("generic", dev, spec["stack"], faults=_faults(spec), transport_cls=_tcls(spec), **_common_kw(can))
     res.conn = conn
     R.do(conn.open)
-    events = [("clear thing " + can["NHI"].core, "Password:", False), (can["HID"].full, "r1>", True)]
+    events = [("clear thing " + can["NHI"].core, "Password:", False), (can["HID"].full, expect2, True),
+              ("y" + can["NHI"].core, "r1>", False)]
     resp = R.do(conn.send_interactive, events, interaction_complete_patterns=["r1>"])
     res.exhibits.append(Exhibit("repr", repr(resp) + "\n" + repr(resp.result) + repr(resp.raw_result), gating=False, what="response of the interaction"))
     R.do(conn.close)
